@@ -28,7 +28,7 @@ impl Predicate for NumberTreePredicate {
     fn check(&self, obj: &Rc<LocatedVal<PDFObjT>>) -> Option<LocatedVal<TypeCheckError>> {
         if let PDFObjT::Dict(ref s) = obj.val() {
             let mappings = s.map();
-            if let Some(a) = mappings.get(&DictKey::new(Vec::from("Names"))) {
+            if let Some(a) = mappings.get(&DictKey::new(Vec::from("Nums"))) {
                 if let PDFObjT::Array(ref s) = a.val() {
                     if s.objs().len() % 2 == 0 {
                         for c in (0 .. s.objs().len()).step_by(2) {
